@@ -127,7 +127,10 @@ impl EventLoop {
     pub fn clean(&mut self) {
         self.network = None;
         self.keepalive_timeout = None;
-        self.pending.extend(self.state.clean());
+        // packets handed back by the state were on the wire before anything still waiting in `pending`
+        let mut pending: VecDeque<Request> = self.state.clean().into();
+        pending.append(&mut self.pending);
+        self.pending = pending;
 
         // drain requests from channel which weren't yet received
         let mut requests_in_channel: Vec<_> = self.requests_rx.drain().collect();
